@@ -66,7 +66,7 @@ _duration_re = re.compile(
         r'(?:(?P<days>\d+)D)?'
         r'(?:T(?:(?P<hours>\d+)H)?'
         r'(?:(?P<minutes>\d+)M)?'
-        r'(?:(?P<seconds>\d+(.\d+)?)S)?)?'
+        r'(?:(?P<seconds>\d+(\.\d+)?)S)?)?'
     )
 
 
@@ -567,24 +567,28 @@ class InProtocolBase(ProtocolMixin):
                                                         (_duration_re.pattern,))
 
         duration = match.groupdict(0)
-        days = int(duration['days'])
-        days += int(duration['months']) * 30
-        days += int(duration['years']) * 365
-        hours = int(duration['hours'])
-        minutes = int(duration['minutes'])
-        seconds = float(duration['seconds'])
-        f, i = modf(seconds)
-        seconds = i
-        microseconds = int(round(1e6 * f))
 
+        # numbers too long to convert and durations too long to hold are the
+        # client's mistakes, just like the ones the regex refuses.
         try:
+            days = int(duration['days'])
+            days += int(duration['months']) * 30
+            days += int(duration['years']) * 365
+            hours = int(duration['hours'])
+            minutes = int(duration['minutes'])
+            seconds = float(duration['seconds'])
+            f, i = modf(seconds)
+            seconds = i
+            microseconds = int(round(1e6 * f))
+
             delta = timedelta(days=days, hours=hours, minutes=minutes,
                 seconds=seconds, microseconds=microseconds)
-        except OverflowError:
-            raise ValidationError(string)
 
-        if duration['sign'] == "-":
-            delta *= -1
+            if duration['sign'] == "-":
+                delta *= -1
+
+        except (ValueError, OverflowError):
+            raise ValidationError(string)
 
         return delta
 
